@@ -39,11 +39,14 @@ Definition ok_TryAttestation : bool :=
   && Nat.eqb (ntok "branch" shape_TryAttestation) 0.
 
 (* BridgeCallHandler: deposits on ctx in a loop BEFORE the branch; BridgeCallEvm on the branch, written only on success;
-   the refund on ctx afterwards; exactly one branch and one write *)
+   then on ctx: the deposits handed from the receiver to the refund address (when they differ), the refund; exactly one
+   branch and one write *)
 Definition ok_BridgeCallHandler : bool :=
   block_in ["loop{"; "call:outer:BridgeTokenToBaseCoin"; "if(err){"; "return-err"; "}"; "}";
             "branch"; "call:cache:BridgeCallEvm"; "if(ok){"; "commit"; "return"; "}"] shape_BridgeCallHandler
-  && before "commit" "call:outer:BridgeCallFailedRefund" shape_BridgeCallHandler
+  && block_in ["if(!bytes.Equal(receiverAddr.Bytes(),refundAddr.Bytes()) && !baseCoins.IsZero()){";
+               "call:outer:SendCoins"; "if(err){"; "return-err"; "}"; "}"; "call:outer:BridgeCallFailedRefund"; "return"] shape_BridgeCallHandler
+  && before "commit" "call:outer:SendCoins" shape_BridgeCallHandler
   && Nat.eqb (ntok "branch" shape_BridgeCallHandler) 1 && Nat.eqb (ntok "commit" shape_BridgeCallHandler) 1
   && Nat.eqb (ntok "defer-commit" shape_BridgeCallHandler) 0
   && Nat.eqb (ntok "call:outer:BridgeCallEvm" shape_BridgeCallHandler) 0.
@@ -94,7 +97,7 @@ Definition ok_relayOnRecv : bool :=
   && before "call:outer:IBCCoinToEvm" "call:outer:HandlerIbcCall" shape_relayOnRecvPacket.
 
 (* ack / timeout: the transfer module first, then the keeper hook; error ack => refund hook, otherwise AfterIBCAckSuccess,
-   which (in this snapshot) deletes the OUTGOING-POOL relation; IbcRefund consumes the IBC relation before converting *)
+   which deletes the IBC relation; IbcRefund consumes the IBC relation before converting *)
 Definition ok_ack_timeout : bool :=
   before "call:outer:OnAcknowledgementPacket" "return" shape_mwOnAcknowledgementPacket
   && Nat.eqb (ntok "call:outer:OnAcknowledgementPacket" shape_mwOnAcknowledgementPacket) 2
@@ -102,7 +105,7 @@ Definition ok_ack_timeout : bool :=
   && list_eqb shape_relayOnAcknowledgementPacket
        ["case(*channeltypes.Acknowledgement_Error){"; "call:outer:refundPacketTokenHook"; "return"; "}";
         "case(default){"; "call:outer:AfterIBCAckSuccess"; "return"; "}"]
-  && list_eqb shape_AfterIBCAckSuccess ["call:outer:DeleteOutgoingTransferRelation"]
+  && list_eqb shape_AfterIBCAckSuccess ["call:outer:DeleteIBCTransferRelation"]
   && list_eqb shape_IbcRefund
        ["call:outer:DeleteIBCTransferRelation"; "if(!k.DeleteIBCTransferRelation(ctx,channel,sequence)){"; "return"; "}";
         "call:outer:ConvertCoin"; "return-err"].
